@@ -112,6 +112,17 @@ def run(ctx):
             for z in (0.0, 0):
                 cases.append({"fn": "completion", "coefs": [hexf(x) for x in F], "coef_type": "F", "tol": hexf(0.0), "tol_int": isinstance(z, int),
                               "seed": [0] * n, "shape": "zero-tol", "timeout": 120})
+        # members next to a collision of two real roots of 1 - F F~ (a root pair just on / just off the real axis; generated on the implementation side)
+        gen = run_impl([{"fn": "c03_bifurc", "d": d_, "seed": rng.randrange(2 ** 31), "want": 9, "attempts": 80, "laurent": True, "timeout": 600}
+                        for d_ in ((6, 7, 8, 8) if quick else list(range(3, 13)) * 2)], timeout=1200)
+        for g_ in gen:
+            for fl in (g_.get("ok") or []):
+                F = [float.fromhex(x) for x in fl]
+                n_ = len(F) - 1
+                if not in_family(F, 1e-6):
+                    continue
+                for sv in Q.seed_vectors(rng, n_, 2 ** n_ if n_ <= 3 else 4):
+                    cases.append({"fn": "completion", "coefs": [hexf(x) for x in F], "coef_type": "F", "seed": sv, "shape": "near-collision", "timeout": 120})
         # outside the family: other tolerances, larger n, unbounded F, tiny extremes
         for j in range(80 if quick else 1200):
             n = rng.choice([rng.randint(1, 12), rng.randint(1, 12), 16, 24, 1, 2, 3])
